@@ -12,8 +12,15 @@
 #include <rime/service.h>
 #include <rime/dict/level_db.h>
 #include <rime/dict/user_db.h>
+#include <rime/verif_hooks.h>
 
 namespace rime {
+
+#ifdef RIME_VERIF
+namespace verif {
+TxnHook txn_hook = nullptr;
+}  // namespace verif
+#endif  // RIME_VERIF
 
 static const char* kMetaCharacter = "\x01";
 
@@ -81,6 +88,7 @@ struct LevelDbWrapper {
   }
 
   bool Update(const string& key, const string& value, bool write_batch) {
+    RIME_VERIF_TXN(write_batch ? "put.batch" : "put.db", key, value);
     if (write_batch) {
       batch.Put(key, value);
       pending[key] = value;
@@ -91,6 +99,7 @@ struct LevelDbWrapper {
   }
 
   bool Erase(const string& key, bool write_batch) {
+    RIME_VERIF_TXN(write_batch ? "del.batch" : "del.db", key, string());
     if (write_batch) {
       batch.Delete(key);
       pending[key] = std::nullopt;
@@ -189,6 +198,14 @@ an<DbAccessor> LevelDb::Query(const string& key) {
 bool LevelDb::Fetch(const string& key, string* value) {
   if (!value || !loaded())
     return false;
+#ifdef RIME_VERIF
+  {
+    bool found = db_->Fetch(key, value);
+    RIME_VERIF_TXN(found ? "fetch" : "fetch.miss", key,
+                   found ? *value : string());
+    return found;
+  }
+#endif  // RIME_VERIF
   return db_->Fetch(key, value);
 }
 
@@ -262,6 +279,7 @@ bool LevelDb::Open() {
   readonly_ = false;
   auto status = db_->Open(file_path(), readonly_);
   loaded_ = status.ok();
+  RIME_VERIF_TXN(loaded_ ? "open" : "open.fail", name(), string());
 
   if (loaded_) {
     string db_name;
@@ -295,6 +313,7 @@ bool LevelDb::Close() {
   if (!loaded())
     return false;
 
+  RIME_VERIF_TXN("close", name(), string());
   db_->Release();
 
   LOG(INFO) << "closed db '" << name() << "'.";
@@ -319,6 +338,7 @@ bool LevelDb::MetaUpdate(const string& key, const string& value) {
 bool LevelDb::BeginTransaction() {
   if (!loaded())
     return false;
+  RIME_VERIF_TXN("begin", name(), string());
   db_->ClearBatch();
   in_transaction_ = true;
   return true;
@@ -327,6 +347,7 @@ bool LevelDb::BeginTransaction() {
 bool LevelDb::AbortTransaction() {
   if (!loaded() || !in_transaction())
     return false;
+  RIME_VERIF_TXN("abort", name(), string());
   db_->ClearBatch();
   in_transaction_ = false;
   return true;
@@ -335,7 +356,9 @@ bool LevelDb::AbortTransaction() {
 bool LevelDb::CommitTransaction() {
   if (!loaded() || !in_transaction())
     return false;
+  RIME_VERIF_TXN("commit", name(), string());
   bool ok = db_->CommitBatch();
+  RIME_VERIF_TXN("commit.done", name(), string(ok ? "1" : "0"));
   db_->ClearBatch();
   in_transaction_ = false;
   return ok;
